@@ -124,6 +124,37 @@ def burstOk (cfg : Cfg) (k created pass wait rej : Nat) : Bool :=
   decide (pass + wait + rej = k) &&
   (decide (rej = 0) || (decide (cfg.quota ≤ pass) && decide (cfg.size ≤ wait)))
 
+/-- Policies-file level: a declared strategy_based_queue remedy (endpoint 0 = global). -/
+structure Decl where
+  ep : Nat
+  name : Nat
+  quota : Nat
+  winsec : Nat
+  size : Nat
+  ttlsec : Nat
+deriving Repr, DecidableEq
+
+def Decl.valid (d : Decl) : Bool :=
+  decide (1 ≤ d.quota) && decide (1 ≤ d.winsec) && decide (1 ≤ d.size) && decide (1 ≤ d.ttlsec) &&
+  decide (d.ttlsec < 30)   -- TTL must stay below the (default) SPOE processing timeout
+
+inductive FileVerdict | accepted | duplicateNames | other
+deriving Repr, DecidableEq
+
+/-- What the policies reader must answer: policy names are unique across the WHOLE file (global and
+    every endpoint), because the name is what identifies a remedy's queue. -/
+def fileVerdict (ds : List Decl) : FileVerdict :=
+  if !(decide (ds.map (·.name)).Nodup) then .duplicateNames
+  else if ds.all (·.valid) then .accepted else .other
+
+/-- Release order of a real-clock burst (quota 1 per window): by priority, then arrival. -/
+def burstOrderOk (prios : List Nat) (order : List Nat) : Bool :=
+  decide (order.length = prios.length) && decide order.Nodup && order.all (· < prios.length) &&
+  (List.range order.length).all fun i => (List.range order.length).all fun j =>
+    !(decide (i < j)) ||
+      (let a := order.getD i 0; let b := order.getD j 0
+       decide (prios.getD a 0 < prios.getD b 0) || (decide (prios.getD a 0 = prios.getD b 0) && decide (a < b)))
+
 /-- Number of immediate passes in a history. -/
 def passCount : List Ev → Nat
   | [] => 0
